@@ -70,7 +70,7 @@ def rotation_2d(ctx):
     ctx.ensure("orthogonal-det-1", ctx.conj([_eq_all(ctx, geo.matmul(tolist(R.array), geo.transpose(tolist(R.array))), geo.identity(3)), ctx.zero(geo.det(tolist(R.array)) - 1)]))
 
 
-@case("C08", "rotation.3d", ["s", "t"] + names("a", 3), mode="real", functions=["geometer.transformation.rotation", "geometer.base.TensorDiagram.calculate", "geometer.utils.math.outer"],
+@case("C08", "rotation.3d", ["s", "t", "k"] + names("a", 3), mode="real", also=("C03",), share=True, functions=["geometer.transformation.rotation", "geometer.base.TensorDiagram.calculate", "geometer.utils.math.outer"],
       assumptions=TRIG + ["np.linalg.norm leaf: generator n >= 0 with n**2 == a.a"], timeout=180, max_paths=64, xcheck=False)
 def rotation_3d(ctx):
     """every axis direction: orthogonal, determinant 1, fixes the axis, turns by the angle (trace = 1 + 2 cos), additive in the angle"""
@@ -83,8 +83,12 @@ def rotation_3d(ctx):
         c, sn = trig(t)
     else:
         c, sn = np.cos(t), np.sin(t)
+    k = ctx.sym("k")
+    ctx.assume(ctx.neg(ctx.zero(k)))
     with ctx.stubs():
         R = gt.rotation(t, axis=geometer.Point(a[0], a[1], a[2]))
+        # the same axis point given by another homogeneous representative (any non-zero, also negative, scale)
+        Rk = gt.rotation(t, axis=geometer.Point(np.append(a, [1]) * k))
         Rs = gt.rotation(s, axis=geometer.Point(a[0], a[1], a[2]))
         Rst = gt.rotation(s + t, axis=geometer.Point(a[0], a[1], a[2]))
     M = [r[:3] for r in tolist(R.array)[:3]]
@@ -93,6 +97,7 @@ def rotation_3d(ctx):
     ctx.ensure("orthogonal", _eq_all(ctx, geo.matmul(M, geo.transpose(M)), geo.identity(3)))
     ctx.ensure("determinant-1", ctx.zero(geo.det(M) - 1, scale=sc))
     ctx.ensure("fixes-the-axis", _eq_all(ctx, geo.matvec(M, tolist(a)), tolist(a)))
+    ctx.ensure("independent-of-the-representative-of-the-axis-point", _eq_all(ctx, Rk.array, R.array))
     ctx.ensure("turns-by-the-angle:trace==1+2cos", ctx.zero(M[0][0] + M[1][1] + M[2][2] - 1 - 2 * c, scale=sc))
     ctx.ensure("rotation(s)*rotation(t)==rotation(s+t)-about-the-same-axis", _eq_all(ctx, (Rs * R).array, Rst.array))
 
